@@ -10,6 +10,50 @@ import contextlib
 
 sys.dont_write_bytecode = True
 sys.path.insert(0, os.environ['VERIF_REPO_PATH'])
+
+
+def _fake_clock(stamp):
+    """The clock is an input the harness decides: every way of asking the
+    standard library for the current time answers `stamp` (seconds since the
+    epoch).  Installed before cnfgen is imported."""
+    import time as _time
+    import datetime as _dt
+    real_local, real_gm = _time.localtime, _time.gmtime
+    real_strftime, real_ctime, real_asctime = _time.strftime, _time.ctime, _time.asctime
+
+    class Date(_dt.date):
+        @classmethod
+        def today(cls):
+            t = real_local(stamp)
+            return cls(t.tm_year, t.tm_mon, t.tm_mday)
+
+    class DateTime(_dt.datetime):
+        @classmethod
+        def now(cls, tz=None):
+            return cls.fromtimestamp(stamp, tz)
+
+        @classmethod
+        def utcnow(cls):
+            t = real_gm(stamp)
+            return cls(*t[:6])
+
+        @classmethod
+        def today(cls):
+            return cls.fromtimestamp(stamp)
+
+    _dt.date = Date
+    _dt.datetime = DateTime
+    _time.time = lambda: float(stamp)
+    _time.time_ns = lambda: int(stamp) * 10 ** 9
+    _time.localtime = lambda secs=None: real_local(stamp if secs is None else secs)
+    _time.gmtime = lambda secs=None: real_gm(stamp if secs is None else secs)
+    _time.strftime = lambda fmt, t=None: real_strftime(fmt, real_local(stamp) if t is None else t)
+    _time.ctime = lambda secs=None: real_ctime(stamp if secs is None else secs)
+    _time.asctime = lambda t=None: real_asctime(real_local(stamp) if t is None else t)
+
+
+if os.environ.get('C07_CLOCK'):
+    _fake_clock(int(os.environ['C07_CLOCK']))
 import warnings  # noqa
 warnings.simplefilter('ignore')
 
@@ -28,6 +72,12 @@ def run_one(job):
     if hasattr(msgmod, '_prefix'):
         msgmod._prefix = ''
     out = io.StringIO()
+    enc = os.environ.get('C07_STDOUT_ENC')
+    if enc:
+        # standard output as the interpreter sets it up under PYTHONIOENCODING
+        # = enc: a text layer over bytes
+        raw = io.BytesIO()
+        out = io.TextIOWrapper(raw, encoding=enc, errors='strict', newline='\n')
     err = io.StringIO()
     old_stdin = sys.stdin
     sys.stdin = io.StringIO(job.get('stdin', ''))
@@ -48,6 +98,15 @@ def run_one(job):
         status = 'exception:%s:%s' % (type(e).__name__, str(e)[:200])
     finally:
         sys.stdin = old_stdin
+    if enc:
+        try:
+            out.flush()
+        except Exception as e:
+            status = 'exception:%s:%s' % (type(e).__name__, str(e)[:200])
+        # compared as text: a format that passes non-ASCII characters through
+        # (the LaTeX document declares utf8 input) legitimately gives other
+        # bytes under another encoding, but the same characters
+        return {'status': status, 'stdout': raw.getvalue().decode(enc, errors='replace')}
     return {'status': status, 'stdout': out.getvalue()}
 
 
